@@ -51,6 +51,20 @@ def run(ctx):
         sm = gen.rand_module(rnd, cl["Sampler"], spec, depth=1, in_project=False)
         nontriv = any(s is not None for s in sm.samples)
         evs = [fmt.roundtrip_event(api.Synth(sm), spec, w=True), fmt.clone_event(sm, spec)]
+        if i % 5 == 3:        # the instrument copied through Python's copy protocols first: the copy saves what the original holds
+            import copy as _copy
+            import pickle as _pickle
+            for how, cp in (("deepcopy", _copy.deepcopy), ("pickle", lambda o: _pickle.loads(_pickle.dumps(o)))):
+                try:
+                    dup = cp(sm)
+                except Exception:
+                    if how == "pickle":
+                        continue            # (pickling is not promised)
+                    dup = None
+                ev_ = fmt.roundtrip_event(api.Synth(dup), spec, w=False) if dup is not None else None
+                if ev_ is not None:
+                    ev_["orig"] = fmt.projection.project_any(api.Synth(sm), spec)
+                    evs.append(ev_)
         data = api.Synth(sm).read()
         if i % 2 == 0:
             p = api.Project()
